@@ -64,6 +64,8 @@ func laRunKind(c *Ctx) {
 	laRunKindCore(c)
 	laRLEThresholds(c)
 	laRLEDecoder(c, map[string]bool{"accepts": true, "unpack-all": true})
+	laRLERunValue(c)
+	laBufGrowth(c)
 }
 
 func laRunKindCore(c *Ctx) {
@@ -285,6 +287,15 @@ func laRunKindCore(c *Ctx) {
 						continue
 					}
 					for _, ins := range blk.Instrs {
+						// the header is what this side works from: handed to the run reader, or (decoder written inline)
+						// shifted / converted here
+						for _, op := range ins.Operands(nil) {
+							if op != nil && *op != nil && (*op == h || stripConvert(*op) == h) {
+								if _, isIf := ins.(*ssa.If); !isIf {
+									takesH = true
+								}
+							}
+						}
 						call, ok := ins.(*ssa.Call)
 						if !ok {
 							continue
@@ -293,12 +304,7 @@ func laRunKindCore(c *Ctx) {
 						if sc == nil || !u.InUniverse(sc) {
 							continue
 						}
-						for _, a := range call.Call.Args {
-							if a == h {
-								takesH = true
-							}
-						}
-						if reachesCallee(u, sc, bitpackUnpackName) {
+						if sc.String() == bitpackUnpackName || reachesCallee(u, sc, bitpackUnpackName) {
 							unpack = true
 						} else {
 							other = true
@@ -323,7 +329,7 @@ func laRunKindCore(c *Ctx) {
 			case !zo || oo:
 				r.bad("LA-runkind", key, pos, "the two sides of the run-kind test do not call distinct readers")
 			case !zh || !oh:
-				r.bad("LA-runkind", key, pos, "a run reader is not given the header it was selected by")
+				r.bad("LA-runkind", key, pos, "a side of the run-kind test does not work from the header it was selected by")
 			default:
 				r.ok("LA-runkind", key, pos, "header&1 == 0 -> RLE reader, == 1 -> bit-packed reader (reaches bitpack.Unpack), both receive the header")
 			}
@@ -790,6 +796,42 @@ func laPrefix(c *Ctx) {
 					}
 					if call, ok := ref.(*ssa.Call); ok && fullCalleeName(&call.Call) == "io.ReadFull" {
 						okAlloc = true
+					}
+				}
+			}
+		}
+	}
+	// ... or by a helper of the package that is handed the length and reads into a slice of that size
+	readsInto := func(ms *ssa.MakeSlice) bool {
+		for _, ref := range *ms.Referrers() {
+			if call, ok := ref.(*ssa.Call); ok && call.Call.IsInvoke() && call.Call.Method.Name() == "Read" {
+				return true
+			}
+			if call, ok := ref.(*ssa.Call); ok && fullCalleeName(&call.Call) == "io.ReadFull" {
+				return true
+			}
+		}
+		return false
+	}
+	for _, b := range dec.Blocks {
+		for _, ins := range b.Instrs {
+			call, ok := ins.(*ssa.Call)
+			if !ok {
+				continue
+			}
+			sc := call.Call.StaticCallee()
+			if sc == nil || sc.Blocks == nil || u.pkgPathOf(sc) != rlePath {
+				continue
+			}
+			for i, a := range call.Call.Args {
+				if !isLen(a) || i >= len(sc.Params) {
+					continue
+				}
+				for _, b2 := range sc.Blocks {
+					for _, i2 := range b2.Instrs {
+						if ms, ok := i2.(*ssa.MakeSlice); ok && stripConvert(ms.Len) == ssa.Value(sc.Params[i]) && readsInto(ms) {
+							okAlloc = true
+						}
 					}
 				}
 			}
